@@ -7,8 +7,8 @@ BUDGET = {'quick': 30, 'thorough': 400}
 FLOOR = {'quick': 10000, 'thorough': 150000}
 RULE = ('list-like values: lists of 0..6 elements with every separator (undecided, space, comma, slash) x bracket combination, '
         'single values, empty lists, maps (0..4 pairs, the empty map made by map.remove) and argument lists (0..6 positional '
-        'arguments, returned by a rest-parameter function); elements are small integers, two dimensions, identifiers and '
-        'short nested lists.  First a fixed table of 41 values: every unary operation on each and join (5 $separator x 4 '
+        'arguments, with and without a trailing comma in the call, returned by a rest-parameter function); elements are small integers, two dimensions, identifiers and '
+        'short nested lists.  First a fixed table of 42 values: every unary operation on each and join (5 $separator x 4 '
         '$bracketed choices) and zip on every ordered pair; then seeded random values.  Operations: length, separator, '
         'is-bracketed, nth and set-nth at EVERY index in [-n-2, n+2], append (value or list; $separator omitted, auto, space, '
         'comma, slash), join, index (each element, absent value, quoted twin, nested list, map pair), zip of 0..3 lists; '
@@ -58,8 +58,21 @@ def M(pairs):
     return {'k': 'map', 'pairs': [list(p) for p in pairs]}
 
 
-def A(items):
-    return {'k': 'arglist', 'items': list(items)}
+def A(items, tc=False):
+    """Argument list of positional arguments; tc: the call is written with a trailing comma (which means nothing)."""
+    v = {'k': 'arglist', 'items': list(items)}
+    if tc:
+        v['tc'] = True
+    return v
+
+
+# Deviation switches: named, individually documented departures of the pinned tree from the model.  A failing case
+# whose observation equals the model's prediction with a (minimal) set of these switched on is reported under the
+# signature 'deviation:<names>' (one signature per defect); any other disagreement gets an ordinary signature.
+DEV_TC = 'arglist-trailing-comma-iterates-extra-null'       # zip / @each over al(a, b,) see a third element null
+DEV_INDEX_ARGLIST = 'index-on-arglist-finds-nothing'        # list.index(al(a), a) is null
+DEV_INDEX_MAP_BRK = 'index-on-map-ignores-brackets-of-the-searched-pair'    # list.index((d: 4), [d 4]) is 1
+DEVIATIONS = [DEV_TC, DEV_INDEX_ARGLIST, DEV_INDEX_MAP_BRK]
 
 
 class SassError(Exception):
@@ -117,7 +130,14 @@ def index_of(i, n):
     return i - 1 if i > 0 else n + i
 
 
-def model(case):
+def iter_items(v, dev):
+    items = aslist(v)
+    if DEV_TC in dev and v['k'] == 'arglist' and v.get('tc'):
+        items.append(S('null'))
+    return items
+
+
+def model(case, dev=frozenset()):
     f, vs = case['fn'], case['vals']
     v = vs[0] if vs else None
     if f == 'identity':
@@ -146,18 +166,24 @@ def model(case):
         br = brk_of(a) if brk in (None, 'auto') else brk == 'true'
         return L(aslist(a) + aslist(b), sep, br)
     if f == 'index':
+        x = case['x']
+        if DEV_INDEX_ARGLIST in dev and v['k'] == 'arglist':
+            return S('null')
+        if DEV_INDEX_MAP_BRK in dev and v['k'] == 'map' and x['k'] == 'list':
+            x = L(x['items'], x['sep'], False)
         for k, e in enumerate(aslist(v)):
-            if eq(e, case['x']):
+            if eq(e, x):
                 return S(str(k + 1))
         return S('null')
     if f == 'zip':
-        ls = [aslist(x) for x in vs]
+        ls = [iter_items(x, dev) for x in vs]
         m = min(len(l) for l in ls) if ls else 0
         return L([L([l[i] for l in ls], 'space') for i in range(m)], 'comma')
     raise ValueError(f)
 
 
-def desc(v):
+def desc(v, dev=frozenset()):
+    """What d() prints for this value (dev only matters for an argument list itself: d() walks it with @each)."""
     k = v['k']
     if k == 's':
         return 'S(%s:%s)' % (stype(v), v['x'])
@@ -165,7 +191,7 @@ def desc(v):
         return 'M(%d)[%s]' % (len(v['pairs']), ''.join('%s=%s|' % (desc(a), desc(b)) for a, b in v['pairs']))
     sep = sep_of(v)
     return 'L(%s,%s,%d,%s)[%s]' % (sep or 'space', 'true' if brk_of(v) else 'false', len(v['items']), sep or 'comma',
-                                 ''.join(desc(e) + '|' for e in v['items']))
+                                 ''.join(desc(e) + '|' for e in iter_items(v, dev)))
 
 
 def kind_of(v):
@@ -185,7 +211,7 @@ def render(v):
     if k == 's':
         return v['x']
     if k == 'arglist':
-        return 'al(%s)' % ', '.join(render(e) for e in v['items'])
+        return 'al(%s%s)' % (', '.join(render(e) for e in v['items']), ',' if v.get('tc') else '')
     if k == 'map':
         if not v['pairs']:
             return 'map.remove((zz: 1), zz)'
@@ -320,7 +346,7 @@ def judge(ctx, case, r):
     ctx.nontrivial(expr_of(case))
     ctx.seen('function:style', '%s:%s' % (f, case.get('style', 'module')))
     for v in case['vals']:
-        ctx.seen('operand', '%s:%s:%s' % (kind_of(v), sep_of(v) or 'undecided', 'bracketed' if brk_of(v) else 'plain'))
+        ctx.seen('operand', '%s:%s:%s%s' % (kind_of(v), sep_of(v) or 'undecided', 'bracketed' if brk_of(v) else 'plain', ':trailing-comma' if v.get('tc') else ''))
     if f in ('append', 'join'):
         ctx.seen('options', '%s:separator=%s:bracketed=%s%s' % (f, case.get('sep'), case.get('brk'), ':positional' if case.get('positional') else ''))
     try:
@@ -348,7 +374,19 @@ def judge(ctx, case, r):
         ctx.violation(signature(case, 'expected=value|observed=error'), case, detail)
         return
     if r[1] != desc(want):
+        for devs in DEV_SETS:             # smallest sets first
+            try:
+                w = model(case, devs)
+                if desc(w, devs) == r[1]:
+                    ctx.violation('deviation:' + '+'.join(sorted(devs)), case, detail)
+                    return
+            except SassError:
+                pass
         ctx.violation(signature(case, deviation(desc(want), r[1])), case, detail)
+
+
+import itertools
+DEV_SETS = [frozenset(c) for n in range(1, len(DEVIATIONS) + 1) for c in itertools.combinations(DEVIATIONS, n)]
 
 
 def expects_error(case):
@@ -393,7 +431,7 @@ def table():
                 t.append(L(abc[:n], sep, brk))
     t += [S('a'), S('1'), S('7px')]
     t += [M([]), M([(S('a'), S('1'))]), M([(S('a'), S('1')), (S('b'), S('2'))]), M([(S('1'), S('a')), (S('b'), NESTED[0]), (S('c'), S('3'))])]
-    t += [A([]), A([S('a')]), A([S('a'), S('b')]), A([S('1'), NESTED[0], S('3')])]
+    t += [A([]), A([S('a')]), A([S('a'), S('b')]), A([S('1'), NESTED[0], S('3')]), A([S('a'), S('b')], tc=True)]
     t += [L([S('a'), S('b'), S('a'), S('b')], 'space'), L([NESTED[0], S('a'), NESTED[0], NESTED[1]], 'comma')]
     return t
 
@@ -415,7 +453,8 @@ def gen_value(rng):
         keys = rng.sample(IDENTS + NUMS[:6], n)
         return M([(S(k), gen_elem(rng)) for k in keys])
     if r < 0.4:
-        return A([gen_elem(rng) for _ in range(rng.randint(0, 6))])
+        n = rng.randint(0, 6)
+        return A([gen_elem(rng) for _ in range(n)], tc=n > 0 and rng.random() < 0.25)
     n = rng.choice([0, 1, 1, 2, 2, 3, 3, 4, 5, 6])
     pool = [gen_elem(rng) for _ in range(rng.randint(1, 3))] if rng.random() < 0.3 else None     # duplicates: first match matters
     items = [rng.choice(pool) if pool else gen_elem(rng) for _ in range(n)]
